@@ -35,18 +35,28 @@ def fieldFn (f : Field ν) (hist : List (Row ν)) (r : Row ν) : COut ν :=
 def fieldRows (f : Field ν) (rows : List (Row ν)) : List (FRow (List KVal) (Row ν)) :=
   rows.map (fun r => { key := fieldKeyVals f r, live := fieldLive f r, arg := r })
 
+/-- is the number of live partitions within the cap after each row? (one flag per prefix) -/
+def capFlags (cap : Nat) (rows : List (FRow (List KVal) (Row ν))) : List Bool :=
+  (rows.foldl (fun (acc : List (List KVal) × List Bool) r =>
+      let keys := if r.live && !acc.1.contains r.key then r.key :: acc.1 else acc.1
+      (keys, decide (keys.length ≤ cap) :: acc.2)) ([], [])).2.reverse
+
 /-- value of every counted row for one field; `none` = beyond the cap, unconstrained -/
 def fieldValues (cap : Nat) (f : Field ν) (rows : List (Row ν)) : List (Option (Option (COut ν))) :=
-  ((fieldSpec (fieldFn f) (fieldRows f rows)).zip (List.range rows.length)).map
-    (fun p => if withinCap cap ((fieldRows f rows).take (p.2 + 1)) then some p.1 else none)
+  ((fieldSpec (fieldFn f) (fieldRows f rows)).zip (capFlags cap (fieldRows f rows))).map
+    (fun p => if p.2 then some p.1 else none)
 
 /-- transpose: per row the list of its field values; `none` if some field is unconstrained -/
+def transposeVals : List (List (Option (Option (COut ν)))) → Nat → List (Option (List (Option (COut ν))))
+  | _, 0 => []
+  | cols, n + 1 =>
+    (cols.foldr (fun col acc =>
+      match col.head?, acc with
+      | some (some v), some l => some (v :: l)
+      | _, _ => none) (some [])) :: transposeVals (cols.map List.tail) n
+
 def rowValues (cap : Nat) (fs : List (Field ν)) (rows : List (Row ν)) : List (Option (List (Option (COut ν)))) :=
-  (List.range rows.length).map (fun i =>
-    fs.foldr (fun f acc =>
-      match ((fieldValues cap f rows).getD i none), acc with
-      | some v, some l => some (v :: l)
-      | _, _ => none) (some []))
+  transposeVals (fs.map (fun f => fieldValues cap f rows)) rows.length
 
 /-- expected result per input row:
 `none` = unconstrained, `some none` = filtered, `some (some vals)` = emitted with these values -/
